@@ -30,8 +30,43 @@ type vPub struct {
 	qos           byte
 }
 
+// vStorage wraps the broker's storage: puts can be held back (a slow etcd) and released later, in order.
+type vStorage struct {
+	storage
+	mu      sync.Mutex
+	stalled bool
+	release chan struct{}
+}
+
+func (s *vStorage) put(key, value string) error {
+	s.mu.Lock()
+	ch := s.release
+	st := s.stalled
+	s.mu.Unlock()
+	if st {
+		<-ch
+	}
+	return s.storage.put(key, value)
+}
+
+func (s *vStorage) stall() {
+	s.mu.Lock()
+	s.stalled, s.release = true, make(chan struct{})
+	s.mu.Unlock()
+}
+
+func (s *vStorage) resume() {
+	s.mu.Lock()
+	if s.stalled {
+		s.stalled = false
+		close(s.release)
+	}
+	s.mu.Unlock()
+}
+
 type vBroker struct {
 	b     *Broker
+	store *vStorage
 	l     *vnet.MemListener
 	pubs  []vPub // PUBLISH packets handed to the backend pipeline
 	drop  func(p *packets.PublishPacket) bool
@@ -70,8 +105,8 @@ func vNewBroker(spec *Spec) *vBroker {
 	spec.Port = vPortSeq
 	spec.EGName, spec.Name = "eg", "mq"
 	spec.Rules = []*Rule{{When: &When{PacketType: Publish}, Pipeline: "backend"}}
-	vb := &vBroker{port: spec.Port}
-	vb.b = newBroker(spec, newStorage(nil), vb, func(string, string) ([]string, error) { return nil, nil })
+	vb := &vBroker{port: spec.Port, store: &vStorage{storage: newStorage(nil)}}
+	vb.b = newBroker(spec, vb.store, vb, func(string, string) ([]string, error) { return nil, nil })
 	if vb.b == nil {
 		panic("newBroker returned nil")
 	}
@@ -84,6 +119,7 @@ func vNewBroker(spec *Spec) *vBroker {
 }
 
 func (vb *vBroker) close() {
+	vb.store.resume()
 	vb.b.close()
 	synctest.Wait()
 }
